@@ -619,6 +619,9 @@ func (c *VirtualTable) Update(ctx context.Context, key interface{}, values map[i
 		colName := c.ColumnNameByIndex[i]
 		new.ColumnValues[colName] = ToColumnValue(v)
 	}
+	// An UPDATE is not an INSERT: it must not move the time at which the
+	// row was last inserted or deleted.
+	new.DeleteUpdateOffset = durationpb.New(ot.Add(old.DeleteUpdateOffset.AsDuration()).Sub(t))
 	merged := MergeRows(key, ot, old, t, &new, t)
 	err = c.Tree.Root.Set(ctx, t, NewKey(key), merged)
 	if err != nil {
